@@ -86,7 +86,9 @@ SkipNodes(c) ==
                  "tupleelem", "arrayelem", "binop", "retval", "fn_inner", "block_inner",
                  \* a parenthesised expression inside parentheses (remove_nested_parens must not
                  \* drop it together with its attribute: fix 8246e5f)
-                 "innerparen"}
+                 "innerparen",
+                 \* `mod x;` as a statement (visit_stmt moves past it: fix for the vanishing declaration)
+                 "moddecl_stmt"}
 Spellings == {"skip", "depr", "cfg_skip", "cfg_depr", "cfg_cfg_skip", "cfg_multi",
               \* the skip attribute next to other attributes of the same node: one whose arguments
               \* are not meta-item syntax (before / after it), a doc comment before it
